@@ -22,7 +22,11 @@ import sys
 
 from checks import common
 
-USES_GEN = True
+# lean/MjProof/Gen/CablePlugin.lean is written only by translate/c51_cable.py and read only by this property's modules.
+# Instead of the global generated-code lock (long queues behind other properties' worktree runs) the run is guarded by
+# a fingerprint: the generated file carries the content hash of the sources it came from, drv_c51 prints it, and the
+# check compares it with the hash of ITS tree before trusting the driver (mismatch after a retry = infrastructure error).
+USES_GEN = False
 
 META = {
     "technique": "Lean 4 proofs over the reals (clamp/slew invariants by induction over control sequences; algebra of the "
@@ -127,7 +131,7 @@ def gen_pid(rng, nsteps):
 
 
 def pid_line(c):
-    return "pid kp=%s ki=%s kd=%s imax=%s slew=%s dt=%s dyn=%d tau=%s early=%d clim=%s integ=%d u=%s" % (
+    return "pid kp=%s ki=%s kd=%s imax=%s slew=%s dt=%s dyn=%d tau=%s early=%d clim=%s integ=%d ownexact=? u=%s" % (
         hx(c["kp"]), hx(c["ki"]), hx(c["kd"]), hx(c["imax"]) if c["imax"] is not None else "-",
         hx(c["slew"]) if c["slew"] is not None else "-", hx(c["dt"]), c["dyn"], hx(c["tau"]), c["early"],
         (hx(c["clim"][0]) + "," + hx(c["clim"][1])) if c["clim"] else "-", c["integ"], ",".join(hx(x) for x in c["u"]))
@@ -157,8 +161,9 @@ def parse_trace(out):
     t = out.split()
     if not t or t[0] != "trace":
         return None
-    meta = {"nact": int(t[1].split("=")[1]), "foot": t[-2].split("=", 1)[1], "warn": int(t[-1].split("=")[1])}
-    body = " ".join(t[2:-2])
+    meta = {"nact": int(t[1].split("=")[1]), "ownexact": int(t[2].split("=")[1]), "foot": t[-2].split("=", 1)[1],
+            "warn": int(t[-1].split("=")[1])}
+    body = " ".join(t[3:-2])
     steps = []
     for rec in body.split(";"):
         if not rec.strip():
@@ -184,7 +189,9 @@ def pid_oracle(c, meta, steps):
     if meta["nact"] != int(has_i) + int(has_p) + int(c["dyn"] != 0):
         bad.append(("c51:pid-activation-layout", "actuator has %d activations" % meta["nact"]))
     sp_prev, integ = None, 0.0            # the oracle's own bookkeeping: last setpoint, running integral
-    state_defect = c["dyn"] == 3 and (has_i or has_p)
+    # the recorded defect class: filterexact actuator whose plugin-owned slots the engine really advances with the
+    # exact-filter rule (measured on the real mj_nextActivation by the harness)
+    state_defect = c["dyn"] == 3 and (has_i or has_p) and meta["ownexact"] == 1
     key_law = "c51:pid-filterexact-plugin-state-advance" if state_defect else "c51:pid-force-law"
     tauc = max(MINVAL, c["tau"])
     for k, (ins, outs) in enumerate(steps):
@@ -290,21 +297,48 @@ def run(ctx):
                 "cylinder/box, random frame orientations (small to arbitrary), flat or curved reference, at the reference, "
                 "straight, and at random joint rotations; kernels: random inputs; a case is distinct by its full line")
     # ---- T: regenerate the cable kernels from the working tree
-    r = common.sh([sys.executable, os.path.join(common.VERIF, "translate", "c51_cable.py")], timeout=600)
+    sys.path.insert(0, os.path.join(common.VERIF, "translate"))
+    import c51_cable
+    expected_id = c51_cable.source_key()
     mp = os.path.join(common.LEAN, "MjProof", "Gen", "cable_manifest.json")
-    man = json.load(open(mp)) if os.path.exists(mp) else {"kernels": {}, "refused": {"*": "no manifest"}}
-    ctx.oblige("translate/c51_cable.py regenerates lean/MjProof/Gen/CablePlugin.lean from the working tree", "translator",
-               r.returncode == 0, (r.stdout + r.stderr)[-1500:])
-    for k in KERNELS:
-        ok = k in man["kernels"] and k not in man["refused"]
-        ctx.oblige("c2lean translates %s%s" % (k, " (sha %s)" % man["kernels"][k]["sha256"][:12] if ok else ""), "translator", ok,
-                   man["refused"].get(k, "missing"))
-    ctx.lean_props(THEOREMS)
-    drv = ctx.driver("drv_c51")
+    drv = None
+    for attempt in range(3):
+        r = common.sh([sys.executable, os.path.join(common.VERIF, "translate", "c51_cable.py")], timeout=900)
+        man = json.load(open(mp)) if os.path.exists(mp) else {"kernels": {}, "refused": {"*": "no manifest"}}
+        if attempt == 0:
+            ctx.oblige("translate/c51_cable.py regenerates lean/MjProof/Gen/CablePlugin.lean from the working tree", "translator",
+                       r.returncode == 0, (r.stdout + r.stderr)[-1500:])
+            for k in KERNELS:
+                ok = k in man["kernels"] and k not in man["refused"]
+                ctx.oblige("c2lean translates %s%s" % (k, " (sha %s)" % man["kernels"][k]["sha256"][:12] if ok else ""), "translator", ok,
+                           man["refused"].get(k, "missing"))
+            ctx.lean_props(THEOREMS)
+        drv = ctx.driver("drv_c51")
+        if not drv:
+            break
+        rc, og, _ = ctx.run_lines([drv], ["genid " + expected_id])
+        if rc == 0 and og == ["genid " + expected_id]:
+            break
+        drv = None
+    else:
+        raise common.Infra("lean/MjProof/Gen/CablePlugin.lean keeps being regenerated from another tree (expected id %s)" % expected_id)
+    ctx.extra["generated_cable_kernels_id"] = expected_id
     R = common.REPO
     impl = ctx.harness("harness/cc/c51_plugins.cc", "c51_plugins", extra=["-I" + os.path.join(R, "plugin")],
                        deps=[os.path.join(R, "plugin", "actuator", "pid.cc"), os.path.join(R, "plugin", "actuator", "pid.h"),
                              os.path.join(R, "plugin", "elasticity", "cable.cc"), os.path.join(R, "plugin", "elasticity", "cable.h")])
+    try:
+        run_streams(ctx, drv, impl, expected_id)
+    finally:
+        if os.path.realpath(R) != "/repo":
+            # leave the shared generated file as /repo's
+            env = dict(os.environ)
+            env.pop("VERIF_REPO", None)
+            import subprocess
+            subprocess.run([sys.executable, os.path.join(common.VERIF, "translate", "c51_cable.py")], capture_output=True, text=True, env=env)
+
+
+def run_streams(ctx, drv, impl, expected_id):
     if not impl:
         return
     thorough = ctx.tier == "thorough"
@@ -335,6 +369,7 @@ def run(ctx):
     nfail, hist = 0, {}
     diff_lines = []
     skipped_unstable = 0
+    own = {}
     worst = {"pid_force_rel": 0.0, "cable_zero_at_reference": 0.0, "cable_zero_straight_rel": 0.0}
 
     def fail(key, what, replay):
@@ -359,11 +394,13 @@ def run(ctx):
                              "replay": "echo '<line>' | c51_plugins   (prints the per-step trace: time ctrl len vel nact nactdot | "
                                        "force actdotI actdotP actI' actP')"})
         ins = " ".join(" ".join(a) for a, _ in steps)
-        diff_lines.append(l + " | " + ins)
+        diff_lines.append(l.replace("ownexact=?", "ownexact=%d" % meta["ownexact"]) + " | " + ins)
+        own[meta["ownexact"]] = own.get(meta["ownexact"], 0) + (c["dyn"] == 3 and (c["ki"] != 0 or c["slew"] is not None))
     for c, l, o in zip(invalid, l1[len(pids):], o1[len(pids):]):
         if o != "create-failed":
             fail("c51:pid-invalid-config-accepted", "negative i_max / slewmax accepted: " + o[:120], {"line": l[:3000]})
-        diff_lines.append(l + " | " + " ".join("0000000000000000 %s 0000000000000000 0000000000000000 - -" % hx(u) for u in c["u"]))
+        diff_lines.append(l.replace("ownexact=?", "ownexact=0") + " | " +
+                          " ".join("0000000000000000 %s 0000000000000000 0000000000000000 - -" % hx(u) for u in c["u"]))
     base = len(pids) + len(invalid)
     for c, l, o in zip(cables, l1[base:], o1[base:]):
         tag = "cable:%s%s:first%d" % (c["qseed"] if c["qseed"] in ("ref", "straight") else "rand", ":flat" if c["flat"] else "", c["first"])
@@ -393,10 +430,11 @@ def run(ctx):
         if name != "QuatDiff":
             v[0:4] = [abs(x) for x in v[0:4]]
         diff_lines.append("kern %s %s" % (name, " ".join(hx(x) for x in v)))
-    diff_lines += ["frob 1", "pid kp=1", "kern QuatDiff 0000000000000000"]
+    diff_lines = ["genid " + expected_id] + diff_lines + ["frob 1", "pid kp=1", "kern QuatDiff 0000000000000000"]
     ctx.extra["case_histogram"] = hist
     ctx.extra["pid_configs_dropped_as_numerically_unstable"] = skipped_unstable
     ctx.extra["oracle_failures"] = nfail
+    ctx.extra["filterexact_configs_with_owned_slots_by_measured_engine_rule"] = {("exact-filter" if k else "euler"): v for k, v in own.items()}
     ctx.extra["oracle_checked"] = len(l1)
     ctx.extra["float_deviation"] = dict(worst, comparison="replay: bitwise; PID-law oracle: relative 1e-7 (observed agreement ~1e-13); "
                                         "cable at reference: exact zero expected, threshold 1e-10*stiffness/length")
